@@ -649,6 +649,77 @@ def _touches_q(st: ast.AST) -> bool:
     return any(isinstance(x, ast.Name) and x.id in ("to_unwrap", "to_elaborate") for x in ast.walk(st))
 
 
+def _eng2_by_evaluation(ctx: Ctx, mod, fn, rest: List[ast.stmt], rvar: str, ninner: str):
+    """evaluate what follows `yield frame` in the main loop (engine MINI) on concrete queues and hook results and compare the
+    queues afterwards with the documented rules: None keeps everything; otherwise the result (a sequence, or one item) replaces
+    what is queued at the frame's depth or deeper -- unless its last element is next_inner, the insert form, which drops only
+    the queued copy of next_inner -- and everything still queued moves back to be unwrapped, in order, behind the new items.
+    -> ("ok", n) / ("bad", text, construct) / None when outside the evaluator's fragment"""
+    from types import SimpleNamespace as NS
+    from ..minieval import Mini, Raised, Unsupported
+    SeqT = NS(tname="Sequence")
+    FrameT = NS(tname="Frame")
+
+    def isinst(o_, c_):
+        if c_ is SeqT:
+            return isinstance(o_, (list, tuple))
+        if c_ is FrameT:
+            return isinstance(o_, NS) and getattr(o_, "is_frame", False)
+        raise Unsupported("isinstance against another class")
+    d = 2
+    n_ok = 0
+    queues = {"nothing queued": [], "next_inner alone, same depth": [("N", 2)], "next_inner deeper, a deeper sibling, an outward item": [("N", 3), ("X", 3), ("Y", 1)],
+              "three at the frame's depth, one outward": [("N", 2), ("X", 2), ("Y", 2), ("Z", 1)],
+              "next_inner outward of the frame (the frame was reached through more unwrapping layers), then a sibling": [("N", 1), ("Y", 1)]}
+    for qlabel, qspec in queues.items():
+        for rlabel in ("None", "PRUNE ()", "[]", "one item", "two items", "(item, next_inner)", "(next_inner,)", "[item, next_inner] (a list)", "(item, an object equal to next_inner but not it)"):
+            objs = {k: NS(tag=k, is_frame=(k == "N")) for k in ("N", "X", "Y", "Z", "A", "B")}
+            E = [(objs[k], dep) for k, dep in qspec]
+            N = E[0][0] if E else None
+            A, B = objs["A"], objs["B"]
+            twin_of_N = NS(**vars(N)) if N is not None else None          # compares equal to next_inner, is another object
+            if rlabel.startswith("(item, an object equal") and N is None:
+                continue
+            R = {"None": None, "PRUNE ()": (), "[]": [], "one item": A, "two items": (A, B), "(item, next_inner)": (A, N), "(next_inner,)": (N,), "[item, next_inner] (a list)": [A, N],
+                 "(item, an object equal to next_inner but not it)": (A, twin_of_N)}[rlabel]
+            U: List[Any] = []
+            env = {"to_elaborate": E, "to_unwrap": U, rvar: R, ninner: N, "depth": d, "frame": NS(tag="frame", is_frame=True, hide=False), "PRUNE": (),
+                   "collections": NS(abc=NS(Sequence=SeqT)), "Sequence": SeqT, "Frame": FrameT, "save_errors": []}
+            before = [(it, dep) for it, dep in E]
+            m = Mini(env, {q: f for q, f in mod.defs.items() if isinstance(f, ast.FunctionDef) and "." not in q and f is not fn}, {"isinstance": isinst, "better_origin": lambda a_, b_: NS(tag="origin")})
+            try:
+                m.run(rest)
+            except (Unsupported, Raised):
+                return None
+            except Exception:
+                return None
+            E2, U2 = m.env.get("to_elaborate"), m.env.get("to_unwrap")
+            if not isinstance(E2, list) or not isinstance(U2, list):
+                return None
+            try:
+                after = [(x[-2], x[-1]) for x in U2] + [(x[0], x[1]) for x in E2]
+            except Exception:
+                return None
+            if R is None:
+                want = before
+            else:
+                items = list(R) if isinstance(R, (list, tuple)) else [R]
+                if items and items[-1] is N:
+                    kept = before[1:] if before else []
+                else:
+                    kept = list(before)
+                    while kept and kept[0][1] >= d:
+                        kept.pop(0)
+                want = [(it, d) for it in items] + kept
+            same = len(after) == len(want) and all(a[0] is w[0] and a[1] == w[1] for a, w in zip(after, want))
+            if not same:
+                show = lambda l_: "[" + ", ".join(f"{getattr(i_, 'tag', i_)}@{dp}" for i_, dp in l_) + "]"
+                return ("bad", f"with {qlabel} ({show(before)}; the frame is at depth {d}) and elaborate_frame returning {rlabel}, the queues hold {show(after)} afterwards; the documented rules give {show(want)}: "
+                        "part of the stack is dropped, duplicated or reordered", f"queues after {rlabel} with {qlabel}")
+            n_ok += 1
+    return ("ok", n_ok)
+
+
 def eng2(ctx: Ctx) -> None:
     """ENG-2 the elaborate_frame result is dispatched over exactly the four documented shapes"""
     from ..util import flip_compare
@@ -668,6 +739,13 @@ def eng2(ctx: Ctx) -> None:
     ninner = norm(ecall[0].args[1]) if len(ecall[0].args) > 1 else None
     if ninner is None:
         raise AnalysisError("ENG-2: elaborate_frame call lost its next_inner argument")
+    ev2 = _eng2_by_evaluation(ctx, mod, fn, rest, rvar, ninner) if rvar.isidentifier() and ninner.isidentifier() else None
+    if ev2 is not None and ev2[0] == "ok":
+        ctx.R.ok("ENG-2", f"_extract.extract_iter: the code after `yield frame` evaluated on {ev2[1]} (queue, hook result) cases", "None keeps; a result replaces depth >= the frame's; (..., next_inner) inserts and drops one queued copy; the rest is re-queued in order")
+        return
+    if ev2 is not None:
+        ctx.R.fail("ENG-2", mod, est, ev2[1], construct=ev2[2])
+        return
     # `if r is not None: <everything else>` as the last statement of the iteration is `if r is None: continue` + the rest
     keep_form = False
     while rest and isinstance(rest[-1], ast.If) and norm(rest[-1].test) == f"{rvar} is not None" and not rest[-1].orelse \
@@ -977,7 +1055,15 @@ def eng34(ctx: Ctx) -> None:
     rest = [x for x in conj if not (isinstance(x, ast.Name) and x.id == "to_unwrap")]
     # elements of to_elaborate are (item, depth) tuples: every append is a tuple display
     apps = [c for c in ast.walk(fn) if isinstance(c, ast.Call) and norm(c.func) in ("to_elaborate.append", "to_elaborate.appendleft")]
-    all_tuples = bool(apps) and all(c.args and isinstance(c.args[0], ast.Tuple) for c in apps)
+    def _record_not_frame(a0: ast.AST) -> bool:
+        # a tuple display, or an instance of a class the module defines that is not (a subclass of) Frame
+        if isinstance(a0, ast.Tuple):
+            return True
+        if isinstance(a0, ast.Call) and isinstance(a0.func, ast.Name):
+            cd = [c_ for c_ in mod.tree.body if isinstance(c_, ast.ClassDef) and c_.name == a0.func.id]
+            return len(cd) == 1 and cd[0].name != "Frame" and not any("Frame" in norm(b_) for b_ in cd[0].bases)
+        return False
+    all_tuples = bool(apps) and all(c.args and _record_not_frame(c.args[0]) for c in apps)
 
     def always_true(e: ast.AST) -> Optional[bool]:
         if isinstance(e, ast.BoolOp) and isinstance(e.op, ast.Or):
@@ -1020,10 +1106,17 @@ def yf1(ctx: Ctx) -> None:
     else:
         ctx.R.fail("YF-1", cm, p, "PRUNE is documented to be equivalent to an empty tuple", qualname="_customization.PRUNE")
     nx = cm.fn("FrameIterator.__next__")
-    if any(isinstance(s, ast.Return) and norm(s.value) == "next(self.inner)" for s in nx.body):
+    nxb = nx.body
+    while len(nxb) == 1 and isinstance(nxb[0], ast.Try) and not nxb[0].orelse and not nxb[0].finalbody \
+            and all(len(h_.body) == 1 and isinstance(h_.body[0], ast.Raise) and h_.body[0].exc is None for h_ in nxb[0].handlers):
+        nxb = nxb[0].body            # handlers that only re-raise handle nothing
+    if any(isinstance(s, ast.Return) and norm(s.value) == "next(self.inner)" for s in nxb):
         ctx.R.ok("YF-1", "FrameIterator.__next__ delegates to the wrapped iterator")
     else:
-        ctx.R.fail("YF-1", cm, nx, "FrameIterator.__next__ must return next(self.inner)")
+        if any(isinstance(c_, ast.Call) and norm(c_) == "next(self.inner)" for c_ in ast.walk(nx)):
+            ctx.R.undecided("YF-1", "FrameIterator.__next__ calls next(self.inner) in a form that is not a plain return")
+        else:
+            ctx.R.fail("YF-1", cm, nx, "FrameIterator.__next__ must return next(self.inner)")
     mod = _engine_mod(ctx)
     fn = mod.fn("extract_iter")
     for c in calls_in(fn, True):
